@@ -190,7 +190,10 @@ def gen_case(rng):
             "strands": rng.choice(["++", "+-", "-+", "--"]), "build": rng.choice(["hg19", "hg38"]),
             "ks": rng.sample([2, 3, 4, 5], 2), "uniform": rng.random() < 0.2, "custom_neutral": rng.random() < 0.5,
             # a neutral region NARROWER than the reads: every read that touches it runs across one or both of its borders
-            "narrow_neutral": rng.random() < 0.4}
+            "narrow_neutral": rng.random() < 0.4,
+            # a catalogue WITHOUT insertions / deletions: Coverage.__init__ then keeps the insertion observations of the reads in the
+            # table (it strips them only when the gene has indel variants), and the depth of a position must still exclude them
+            "no_indels": rng.random() < 0.4}
 
 
 def run_case(chk, case, terms, post):
@@ -199,9 +202,10 @@ def run_case(chk, case, terms, post):
     from aldy.gene import Gene
     rng = random.Random(case["seed"])
     desc_ = {"pseudogene": case["pseudogene"], "strands": case["strands"], "build": case["build"], "custom_neutral": case["custom_neutral"],
-             "narrow_neutral": bool(case["custom_neutral"] and case.get("narrow_neutral"))}
+             "narrow_neutral": bool(case["custom_neutral"] and case.get("narrow_neutral")), "no_indels": bool(case.get("no_indels"))}
     with tempfile.TemporaryDirectory(dir=common.SCRATCH) as d:
-        yp, desc = gendb.write_db(d, rng, name="GEN", length=case["length"], pseudogene=case["pseudogene"], strands=case["strands"])
+        extra = {"kinds": {"snp": 6, "mnp": 1}} if case.get("no_indels") else {}
+        yp, desc = gendb.write_db(d, rng, name="GEN", length=case["length"], pseudogene=case["pseudogene"], strands=case["strands"], **extra)
         build = case["build"]
         b = desc["builds"][build]
         g = Gene(yp, genome=build)
